@@ -25,12 +25,15 @@ RECORDS = [
     rec("1", "1", "'ab'", "'A'", "1.5", "False", "['a']", "'/bin/a'", "'::1'", "'::/0'", "'http://a'", "None", SUB("'a'", "1")),
 ]
 
+# same type name as RECORDS' descriptor but other fields (descriptor-keyed caches must not confuse the two)
+SAME_NAME_OTHER_FIELDS = rs("sel/rec", [["string", "extra"], ["varint", "n"], ["uri", "link"], ["string", "s"]], ["'ab'", "3", "'http://x/a.txt'", "'zz'"])
+
 INT = ["r.n", "r.m", "0", "1", "3", "10"]
 FLT = ["r.f", "1.5"]
 STR = ["r.s", "r.t", "'a'", "'A'", "'ab'", "''"]
 BOOL = ["r.b", "True", "False"]
 NONE = ["None", "r.none"]
-LST = ["r.l", "['a', 'b']", "('a',)", "[r.s, 'ab']", "[]", "[1, 3]", "(r.n, r.m)"]
+LST = ["r.l", "['a', 'b']", "('a',)", "[r.s, 'ab']", "[]", "[1, 3]", "(r.n, r.m)", "['1.2.3.4', '10.0.0.0/8', '/bin/a']", "(1, '10.1.2.3', '::1')"]
 OTHER = ["b'a'", "r.p", "r.ip", "r.nw", "r.u", "r.u.netloc", "r.u.filename", "r.sub.s", "r.sub.n", "r.sub"]
 CONS = ["net.ipaddress('1.2.3.4')", "net.ipnetwork('10.0.0.0/8')", "net.ipv4.Subnet('1.2.3.0/24')", "string('a')", "varint(3)",
         "net.ipnetwork('::/0')"]
@@ -51,6 +54,9 @@ CALLS = [
     "field_contains(r, Type.string, ['ab'])", "field_contains(r, fields=['s'], strings=['a'])",
     "field_equals(r, ['s', 't'], ['A'])", "field_equals(r, ['s'], ['A'], nocase=False)", "field_equals(r, ['zz', 't'], ['ab'])",
     "field_equals(r, Type.string, ['a'])", "field_equals(r, ['n'], [1])",
+    "lower(r.l) == ['a']", "upper(r.l) == ['A']", "lower(r.l) == r.l", "'a' in lower(r.l)", "field_contains(r, ['l'], ['a'])", "field_equals(r, ['l'], ['a'])",
+    "field_contains(r, ['l', 's'], ['A'], nocase=False)", "any(f.name == 'extra' for f in fields('string'))", "any(f.name == 's' for f in fields('string'))",
+    "any(f.typename == 'uri' for f in fields('uri'))", "all(f.name != 'link' for f in fields('uri'))",
     "field_regex(r, ['s', 't'], 'a+b')", "field_regex(r, ['t'], '^A$')", "field_regex(r, ['zz', 's'], '.')", "field_regex(r, Type.string, 'b$')",
 ]
 GENS = [
